@@ -70,10 +70,11 @@ func (s *snapshots) latest() (index, term uint64) {
 }
 
 func (s *snapshots) meta() (snapshotMeta, error) {
-	if s.index == 0 {
+	index, _ := s.latest()
+	if index == 0 {
 		return snapshotMeta{index: 0, term: 0}, nil
 	}
-	f, err := os.Open(metaFile(s.dir, s.index))
+	f, err := os.Open(metaFile(s.dir, index))
 	if err != nil {
 		return snapshotMeta{}, err
 	}
